@@ -9,7 +9,9 @@
 (* 80/150 km (thorough: 80/100/150; 80 km is below the 90 km target span, 95 km then lies between the maximum    *)
 (* and the length at which two spans reach the 50 km minimum) x power/gain mode; the SI band lies strictly       *)
 (* inside the amplifier band or has the same edges (tied to EOL xor mode so that every chain meets both).        *)
-(* Further chain kinds: two splices in a row, fibres describing one / both connectors themselves.               *)
+(* Further chain kinds: two splices in a row, fibres describing one / both connectors themselves, joined fibres,   *)
+(* user-complete line systems (also with insertion off), already split spans, C+L multiband sites, a 140 km span  *)
+(* under a design power sweep (+0.2 .. +3.0 dBm in 0.2 dB steps).                                                 *)
 (* The reverse direction of a link carries the mirrored chain (a plain 80 km fibre opposite a Raman chain).      *)
 (* Tier selects how many chain combinations are used on the 3- and 4-ROADM shapes.                              *)
 EXTENDS DesignStructure, Json
@@ -31,18 +33,26 @@ FC(l, i, o) == [F(l) EXCEPT !.ci = i, !.co = o]         \* fibre that describes 
 R(l) == [t |-> "RamanFiber", len |-> l, k |-> "", att |-> 0, ci |-> dB \div 2, co |-> dB \div 2]
 X    == [t |-> "Fused", len |-> 0, k |-> "", att |-> 0, ci |-> NONE, co |-> NONE]
 A(k) == [t |-> "Edfa", len |-> 0, k |-> k, att |-> 0, ci |-> NONE, co |-> NONE]
+M(k) == [t |-> "Multiband_amplifier", len |-> 0, k |-> k, att |-> 0, ci |-> NONE, co |-> NONE]   \* user multiband site
 
 LossTable == <<<<191000000, 210>>, <<193500000, 200>>, <<196500000, 190>>>>       \* <<MHz, mdB/km>>
+\* one band of a user multiband amplifier: "zero" = delta_p and out_voa explicitly 0 dB (keep the reference power), "full"
+UserBand(k, v) == IF k = "zero" THEN [variety |-> v, gain |-> NONE, voa |-> 0, dp |-> 0]
+                  ELSE [variety |-> v, gain |-> 18 * dB, voa |-> dB, dp |-> dB]
 UserSub(k) == IF k = "full" THEN [variety |-> "std_medium_gain", gain |-> 18 * dB, voa |-> dB, dp |-> dB]
               ELSE IF k = "voa" THEN [variety |-> "", gain |-> NONE, voa |-> 3 * dB, dp |-> NONE]     \* only an output VOA set
+              ELSE IF k = "zero" THEN [variety |-> "std_medium_gain", gain |-> NONE, voa |-> 0, dp |-> 0]   \* explicit 0 dB settings
               ELSE IF k = "partial" THEN [variety |-> "std_medium_gain", gain |-> NONE, voa |-> NONE, dp |-> NONE]
               ELSE NoSub
 Concrete(d, name) ==
     IF d.t = "Fiber" THEN [Blank(name, "Fiber") EXCEPT !.len = d.len, !.coef = 200, !.variety = "SSMF", !.attIn = d.att,
-                               !.conIn = d.ci, !.conOut = d.co, !.opt = IF d.k \in {"", "perfreq"} THEN "" ELSE d.k, !.coefTab = IF d.k = "perfreq" THEN LossTable ELSE <<>>]
+                               !.conIn = d.ci, !.conOut = d.co, !.opt = IF d.k \in {"", "perfreq", "span1", "span2"} THEN "" ELSE d.k, !.coefTab = IF d.k = "perfreq" THEN LossTable ELSE <<>>]
     ELSE IF d.t = "RamanFiber" THEN [Blank(name, "RamanFiber") EXCEPT !.len = d.len, !.coef = 200, !.variety = "SSMF",
                                         !.attIn = 0, !.conIn = dB \div 2, !.conOut = dB \div 2]
     ELSE IF d.t = "Fused" THEN [Blank(name, "Fused") EXCEPT !.loss = dB]
+    ELSE IF d.t = "Multiband_amplifier"
+         THEN [Blank(name, "Multiband_amplifier") EXCEPT !.variety = IF d.k = "none" THEN "" ELSE "std_medium_gain_multiband",
+                                                         !.sub = IF d.k = "none" THEN <<>> ELSE <<UserBand(d.k, "std_medium_gain"), UserBand(d.k, "std_medium_gain_L")>>]
     ELSE [Blank(name, "Edfa") EXCEPT !.variety = UserSub(d.k).variety, !.sub = <<UserSub(d.k)>>]
 
 Lens == {50, 20 * km, 80 * km, 95 * km, 151 * km, 400 * km, 1200 * km}
@@ -64,6 +74,17 @@ OneConnector == {<<FC(80 * km, dB \div 2, NONE)>>, <<FC(20 * km, NONE, dB \div 4
 \* effective area different from the library type
 UserParams == {<<FM(151 * km)>>, <<FM(20 * km), X, F(80 * km)>>, <<FU(80 * km, "lumped")>>, <<FU(151 * km, "dispfreq")>>,
                <<FU(80 * km, "dispfreq")>>, <<FU(80 * km, "disp")>>}
+\* a saved design designed again: the two spans x_(1/2), x_(2/2) of an earlier split with their in-line amplifier; under a
+\* shorter maximum both are split again
+Resplit == {<<FU(100 * km, "span1"), A("partial"), FU(100 * km, "span2")>>}
+\* a user amplifier whose delta_p / out_voa are explicitly 0 dB
+ZeroAmp == {<<F(80 * km), A("zero"), F(20 * km)>>}
+\* C+L line systems (library tests/data/eqpt_config_multiband.json, ROADM design bands C and a narrow L band): the user
+\* placed multiband amplifier sites, undescribed / with explicit 0 dB settings / fully described
+Multi == {<<F(55 * km), M("none"), F(50 * km), M("none"), F(60 * km)>>, <<F(80 * km), M("zero"), F(80 * km)>>,
+          <<F(80 * km), M("full"), F(20 * km)>>}
+\* a long span at the edge of amplifier saturation: designed under a sweep of the design power
+Hot == {<<F(140 * km)>>}
 \* two fibres joined directly (an in-line amplifier is to be inserted between unequal spans)
 Joined == {<<F(80 * km), F(20 * km)>>, <<F(95 * km), F(50), F(80 * km)>>}
 \* line systems in which the user placed every amplifier (some spans shorter than the padding, connectors undescribed):
@@ -73,7 +94,7 @@ Complete == {<<A("none"), F(20 * km), A("none")>>, <<A("partial"), F(50), X, F(5
 \* a user output VOA on an otherwise automatic amplifier, followed by two more amplifiers (the second fibre splits)
 UserVoa == {<<F(80 * km), A("voa"), F(151 * km)>>, <<F(20 * km), A("voa"), F(80 * km)>>}
 PerFreq == {<<FQ(151 * km)>>, <<FQ(20 * km), X, F(80 * km)>>}
-Chains == Plain \cup Spliced \cup WithAmp \cup Padded \cup PerFreq \cup DoubleSplice \cup OneConnector \cup UserParams \cup UserVoa \cup Joined \cup Complete
+Chains == Plain \cup Spliced \cup WithAmp \cup Padded \cup PerFreq \cup DoubleSplice \cup OneConnector \cup UserParams \cup UserVoa \cup Joined \cup Complete \cup Resplit \cup ZeroAmp
 \* representatives used where the full product would be too large
 Reps   == {<<F(50)>>, <<F(80 * km)>>, <<F(400 * km)>>, <<F(20 * km), X, F(50)>>, <<F(151 * km), X, F(80 * km)>>,
            <<F(20 * km), A("none"), F(80 * km)>>, <<F(151 * km), A("full"), F(20 * km)>>, <<F(80 * km), A("partial"), F(50)>>}
@@ -93,7 +114,10 @@ AddLine(G, a, b, ch) ==
     LET n == Len(G)
         m == Len(ch)
         tag == Site(a) \o Site(b)
-        el(j) == [Concrete(ch[j], ch[j].t \o " " \o tag \o ToString(j))
+        \* fibres of kind span1 / span2 carry the names of the two spans of a fibre split by an earlier design
+        nm(j) == IF ch[j].k = "span1" THEN "Fiber " \o tag \o "_(1/2)" ELSE IF ch[j].k = "span2" THEN "Fiber " \o tag \o "_(2/2)"
+                 ELSE ch[j].t \o " " \o tag \o ToString(j)
+        el(j) == [Concrete(ch[j], nm(j))
                      EXCEPT !.pred = {IF j = 1 THEN a ELSE n + j - 1}, !.succ = {IF j = m THEN b ELSE n + j + 1}]
     IN [x \in 1..(n + m) |-> IF x > n THEN el(x - n)
                              ELSE IF x = a THEN [G[a] EXCEPT !.succ = @ \cup {n + 1}]
@@ -115,6 +139,8 @@ Setting(pad, eol, maxl, pm) == [padding |-> pad * dB, eol |-> eol * dB, maxLen |
                                 conIn |-> 300000, conOut |-> 400000,
                                 siBand |-> IF (eol + (IF pm THEN 1 ELSE 0)) % 2 = 1 THEN AmpBand ELSE InnerBand,
                                 ampBand |-> AmpBand,
+                                bands |-> 1,                                       \* design bands of the ROADMs (2 = C + L)
+                                power |-> 0,                                       \* design power (SI power_dbm) in 0.1 dBm
                                 insert |-> TRUE,                                   \* amplifier insertion on (the default)
                                 lenUnits |-> IF (pad \div 10 + (IF pm THEN 1 ELSE 0)) % 2 = 1 THEN "m" ELSE "km",  \* unit of Span.max_length
                                 lib |-> {"std_low_gain", "std_medium_gain", "std_high_gain"}]
@@ -126,6 +152,9 @@ FewSettings == {Setting(10, 0, 150, TRUE), Setting(0, 1, 80, FALSE), Setting(10,
 
 Graphs == {Pair(c) : c \in Chains}
 NoInsert(s) == [s EXCEPT !.insert = FALSE]
+TwoBands(s) == [s EXCEPT !.bands = 2, !.siBand = InnerBand, !.lenUnits = "km",
+                         !.lib = {"std_medium_gain_multiband", "std_medium_gain", "std_medium_gain_L"}]
+PowerSweep  == {[Setting(10, 0, 150, TRUE) EXCEPT !.power = p] : p \in {2 * k : k \in 1..15}}          \* +0.2 .. +3.0 dBm
 \* a Raman estimation costs ~0.3 s in the real code: the Raman chains run under the half fraction of the settings
 GraphsHalf == {Pair(c) : c \in Raman} \cup {PairR(c) : c \in {<<F(80 * km)>>, <<F(151 * km)>>}} \cup (IF Tier # "thorough" THEN {} ELSE {Line3(c, d) : c \in Chains, d \in Reps})
 GraphsFew == IF Tier # "thorough"
@@ -137,6 +166,8 @@ GraphsFew == IF Tier # "thorough"
 TwoSettings == {Setting(10, 0, 150, TRUE), Setting(0, 1, 80, FALSE)}
 PairSettings == IF Tier = "thorough" THEN AllSettings ELSE IF Tier = "quick" THEN HalfSettings ELSE TwoSettings
 MCCases == {[g |-> x, s |-> s] : x \in Graphs, s \in PairSettings}
+           \cup {[g |-> Pair(c), s |-> TwoBands(s)] : c \in Multi, s \in (IF Tier = "b1quick" THEN TwoSettings ELSE FewSettings)}
+           \cup {[g |-> Pair(c), s |-> s] : c \in Hot, s \in (IF Tier = "b1quick" THEN {Setting(10, 0, 150, TRUE)} ELSE PowerSweep)}
            \cup {[g |-> Pair(c), s |-> NoInsert(s)] : c \in Complete, s \in (IF Tier = "b1quick" THEN FewSettings ELSE HalfSettings)}
            \cup {[g |-> x, s |-> s] : x \in GraphsHalf, s \in (IF Tier = "b1quick" THEN FewSettings ELSE HalfSettings)}
            \cup {[g |-> x, s |-> s] : x \in GraphsFew, s \in FewSettings}
